@@ -12,6 +12,7 @@ Line protocol (stateless, one history per line):
           r  release newest handle               d  drain
           v.<proto>.<val> / o.<proto>.<val> / f.<proto>.<val>   dispatch Volume / OutputDevices / KeyboardFocus
           a.<proto>.<0|1>  updater's own `active` turns off / on by itself
+          u.<op>.<val>     user-initiated operation on the facade (set_volume, volume_up, … ; see harness)
   → <outputs> <refused> <tkP> <tkK> <mainP> <mainK> <vol> <outs> <foc> <qlen> <lst> <active>
      outputs : csv of  <i>P<proto>.<val>  |  <i>V<old>.<new>  |  <i>O<old>.<new>  |  <i>F<old>.<new>
                (i = index of the event during which the user listener was called)
@@ -32,6 +33,7 @@ def parseEv (tok : String) : Option Ev :=
   | ["k", p, m] => do
       let p ← p.toNat?; let m ← m.toNat?
       if p < 5 ∧ m < 4 then some (.takeover p (m % 2 == 1) (m / 2 == 1)) else none
+  | ["u", _, _] => some .userop
   | ["a", p, b] => do
       let p ← p.toNat?; let b ← b.toNat?
       if p < 5 ∧ b < 2 then some (.selfact p (b == 1)) else none
